@@ -1,1 +1,1424 @@
-//! engine: gen_circuit (see DESIGN.md §4)
+//! E1 — generated family of constraint systems (`GenCircuit`).
+//!
+//! A `Circuit<F>` whose `Params = GenSpec`. `configure_with_params` builds the constraint system
+//! from the spec (phases, blinded/unblinded advice, fixed and instance columns, challenges,
+//! multiplicative- and additive-selector gates with random expression trees, `lookup` /
+//! `lookup_any` arguments, equality and constants). A *plan* — which rows every gate / lookup is
+//! enabled on, which cells are inputs, copies, constants, instance cells — is derived from the
+//! spec alone (never from values), so the structure is witness-independent by construction; the
+//! witness is then obtained by walking the plan: inputs are sampled, every gate has the shape
+//! `q · (out − G(inputs))` with a dedicated output cell, so outputs are computed.
+//! A fault list (cell → new value) is applied inside `synthesize`, so the same circuit can be
+//! proven with a violated assignment without any repository hook.
+
+use std::collections::{BTreeMap, BTreeSet};
+
+use ff::{FromUniformBytes, PrimeField};
+use midnight_proofs::{
+    circuit::{Layouter, SimpleFloorPlanner, Value},
+    plonk::{
+        Advice, Challenge, Circuit, Column, ConstraintSystem, Constraints, Error, Expression,
+        FirstPhase, Fixed, Instance, SecondPhase, Selector, TableColumn, ThirdPhase,
+    },
+    poly::Rotation,
+};
+use rand::{seq::SliceRandom, Rng};
+use rand_chacha::ChaCha8Rng;
+use serde::{Deserialize, Serialize};
+
+use crate::common::rng_for;
+
+// ---------------------------------------------------------------------------------------------
+// Spec
+// ---------------------------------------------------------------------------------------------
+
+#[derive(Clone, Debug, Serialize, Deserialize, PartialEq, Eq, Hash)]
+pub struct AdvSpec {
+    pub phase: u8,
+    pub unblinded: bool,
+    pub equality: bool,
+}
+
+#[derive(Clone, Debug, Serialize, Deserialize, PartialEq, Eq, Hash)]
+pub enum GExpr {
+    C(u64),
+    Adv(usize, i32),
+    Fix(usize, i32),
+    Inst(usize, i32),
+    Chal(usize),
+    Neg(Box<GExpr>),
+    Add(Box<GExpr>, Box<GExpr>),
+    Mul(Box<GExpr>, Box<GExpr>),
+    Scale(Box<GExpr>, u64),
+}
+
+impl GExpr {
+    pub fn degree(&self) -> usize {
+        match self {
+            GExpr::C(_) | GExpr::Chal(_) => 0,
+            GExpr::Adv(..) | GExpr::Fix(..) | GExpr::Inst(..) => 1,
+            GExpr::Neg(a) | GExpr::Scale(a, _) => a.degree(),
+            GExpr::Add(a, b) => a.degree().max(b.degree()),
+            GExpr::Mul(a, b) => a.degree() + b.degree(),
+        }
+    }
+    fn visit<'a>(&'a self, f: &mut impl FnMut(&'a GExpr)) {
+        f(self);
+        match self {
+            GExpr::Neg(a) | GExpr::Scale(a, _) => a.visit(f),
+            GExpr::Add(a, b) | GExpr::Mul(a, b) => {
+                a.visit(f);
+                b.visit(f)
+            }
+            _ => {}
+        }
+    }
+    pub fn adv_queries(&self) -> BTreeSet<(usize, i32)> {
+        let mut s = BTreeSet::new();
+        self.visit(&mut |e| {
+            if let GExpr::Adv(c, r) = e {
+                s.insert((*c, *r));
+            }
+        });
+        s
+    }
+    pub fn fix_queries(&self) -> BTreeSet<(usize, i32)> {
+        let mut s = BTreeSet::new();
+        self.visit(&mut |e| {
+            if let GExpr::Fix(c, r) = e {
+                s.insert((*c, *r));
+            }
+        });
+        s
+    }
+    pub fn inst_queries(&self) -> BTreeSet<(usize, i32)> {
+        let mut s = BTreeSet::new();
+        self.visit(&mut |e| {
+            if let GExpr::Inst(c, r) = e {
+                s.insert((*c, *r));
+            }
+        });
+        s
+    }
+    pub fn challenges(&self) -> BTreeSet<usize> {
+        let mut s = BTreeSet::new();
+        self.visit(&mut |e| {
+            if let GExpr::Chal(c) = e {
+                s.insert(*c);
+            }
+        });
+        s
+    }
+}
+
+/// One constraint `out − G` of a gate.
+#[derive(Clone, Debug, Serialize, Deserialize, PartialEq, Eq, Hash)]
+pub struct ConsSpec {
+    /// advice column and rotation of the dedicated output cell
+    pub out: (usize, i32),
+    pub g: GExpr,
+}
+
+#[derive(Clone, Debug, Serialize, Deserialize, PartialEq, Eq, Hash)]
+pub struct GateSpec {
+    pub cons: Vec<ConsSpec>,
+    /// additive selector ⇒ trash argument
+    pub additive: bool,
+    /// number of rows the generator tries to enable it on
+    pub placements: usize,
+}
+
+#[derive(Clone, Debug, Serialize, Deserialize, PartialEq, Eq, Hash)]
+pub enum TableKind {
+    /// `cs.lookup` into dedicated table columns
+    Table,
+    /// `cs.lookup_any` into fixed columns gated by a fixed enable column
+    AnyFixed,
+    /// `cs.lookup_any` into (first-phase) advice columns gated by a fixed enable column
+    AnyAdvice(Vec<usize>),
+}
+
+#[derive(Clone, Debug, Serialize, Deserialize, PartialEq, Eq, Hash)]
+pub struct LookupSpec {
+    pub kind: TableKind,
+    /// advice (column, rotation) of each input
+    pub inputs: Vec<(usize, i32)>,
+    pub table_rows: usize,
+    pub placements: usize,
+}
+
+#[derive(Clone, Debug, Serialize, Deserialize, PartialEq, Eq, Hash)]
+pub struct GenSpec {
+    pub k: u32,
+    /// rows 0..row_limit may be assigned (≤ usable rows; set by the generator after a trial
+    /// configure)
+    pub row_limit: usize,
+    pub advice: Vec<AdvSpec>,
+    /// plain fixed columns (coefficients); flag = equality-enabled
+    pub fixed_eq: Vec<bool>,
+    pub n_instance: usize,
+    /// for each challenge: the phase after which it is usable
+    pub challenges: Vec<u8>,
+    pub gates: Vec<GateSpec>,
+    pub lookups: Vec<LookupSpec>,
+    pub constants: bool,
+    /// number of copy-constraint attempts of each kind
+    pub n_copies: usize,
+    pub n_inst_expose: usize,
+    pub n_inst_load: usize,
+    pub n_const_cells: usize,
+    pub n_junk: usize,
+    /// number of leading "free" random entries per instance column (readable by gates)
+    pub inst_free: usize,
+    pub plan_seed: u64,
+}
+
+impl Default for GenSpec {
+    fn default() -> Self {
+        GenSpec {
+            k: 5,
+            row_limit: 0,
+            advice: vec![],
+            fixed_eq: vec![],
+            n_instance: 1,
+            challenges: vec![],
+            gates: vec![],
+            lookups: vec![],
+            constants: false,
+            n_copies: 0,
+            n_inst_expose: 0,
+            n_inst_load: 0,
+            n_const_cells: 0,
+            n_junk: 0,
+            inst_free: 2,
+            plan_seed: 0,
+        }
+    }
+}
+
+impl GenSpec {
+    pub fn n_phases(&self) -> u8 {
+        self.advice.iter().map(|a| a.phase).max().unwrap_or(0) + 1
+    }
+    pub fn features(&self) -> Vec<String> {
+        let mut f = vec![];
+        f.push(format!("phases{}", self.n_phases()));
+        if self.advice.iter().any(|a| a.unblinded) {
+            f.push("unblinded".into());
+        }
+        if self.gates.iter().any(|g| g.additive) {
+            f.push("trash".into());
+        }
+        if self.gates.iter().any(|g| !g.additive) {
+            f.push("gate".into());
+        }
+        for l in &self.lookups {
+            f.push(match l.kind {
+                TableKind::Table => "lookup".into(),
+                TableKind::AnyFixed => "lookup_any_fixed".into(),
+                TableKind::AnyAdvice(_) => "lookup_any_advice".into(),
+            });
+        }
+        if self.constants && self.n_const_cells > 0 {
+            f.push("constants".into());
+        }
+        if self.n_copies > 0 {
+            f.push("copies".into());
+        }
+        if self.n_inst_expose + self.n_inst_load > 0 {
+            f.push("inst_copy".into());
+        }
+        if !self.challenges.is_empty() {
+            f.push("challenge".into());
+        }
+        if self.gates.iter().any(|g| g.cons.iter().any(|c| !c.g.inst_queries().is_empty())) {
+            f.push("inst_query".into());
+        }
+        let maxdeg = self
+            .gates
+            .iter()
+            .map(|g| g.cons.iter().map(|c| c.g.degree()).max().unwrap_or(0) + if g.additive { 0 } else { 1 })
+            .max()
+            .unwrap_or(0);
+        f.push(format!("deg{maxdeg}"));
+        f.sort();
+        f.dedup();
+        f
+    }
+}
+
+// ---------------------------------------------------------------------------------------------
+// Plan (value-independent)
+// ---------------------------------------------------------------------------------------------
+
+pub type Cell = (usize, usize); // (advice column, row)
+
+#[derive(Clone, Debug, PartialEq, Eq)]
+pub enum Src {
+    /// sampled input (index into the witness stream)
+    Rand,
+    /// constant from the plan, tied by `assign_advice_from_constant`
+    Const(u64),
+    /// loaded from instance (column, row) by `assign_advice_from_instance`
+    FromInstance(usize, usize),
+    /// copy of another advice cell (`constrain_equal`)
+    CopyOf(Cell),
+    /// column j of row `table_row` of lookup `lookup`'s table
+    TableVal { lookup: usize, table_row: usize, j: usize },
+    /// assigned, read by nothing
+    Junk,
+    /// cell of an advice table (lookup_any into advice)
+    TableCell { lookup: usize, table_row: usize, j: usize },
+}
+
+#[derive(Clone, Debug, PartialEq, Eq)]
+pub enum Step {
+    Input { cell: Cell, src: Src },
+    Gate { gate: usize, con: usize, row: usize },
+}
+
+#[derive(Clone, Debug, PartialEq, Eq)]
+pub enum InstSrc {
+    Free,
+    Expose(Cell),
+    /// value loaded into an advice cell
+    Load,
+}
+
+#[derive(Clone, Debug, Default)]
+pub struct Plan {
+    pub gate_rows: Vec<Vec<usize>>,
+    /// per lookup: rows where the input selector is on
+    pub lookup_rows: Vec<Vec<usize>>,
+    pub steps: Vec<Step>,
+    /// plain fixed cells read by gates: (column,row) -> small value
+    pub fixed_vals: BTreeMap<(usize, usize), u64>,
+    /// per lookup: table contents [row][j] as small values (row 0 is all zeros)
+    pub tables: Vec<Vec<Vec<u64>>>,
+    /// per lookup with an any-table: first row of the table block
+    pub table_base: Vec<usize>,
+    pub inst: Vec<Vec<InstSrc>>,
+}
+
+fn rows_ok(row: usize, rots: impl Iterator<Item = i32>, limit: usize) -> bool {
+    for r in rots {
+        let x = row as i64 + r as i64;
+        if x < 0 || x >= limit as i64 {
+            return false;
+        }
+    }
+    true
+}
+
+fn at(row: usize, rot: i32) -> usize {
+    (row as i64 + rot as i64) as usize
+}
+
+impl Plan {
+    pub fn derive(spec: &GenSpec) -> Plan {
+        let mut rng = rng_for(spec.plan_seed, "plan");
+        let limit = spec.row_limit;
+        let mut plan = Plan::default();
+        let mut assigned: BTreeSet<Cell> = BTreeSet::new();
+        // instance layout: [free entries][expose / load entries]
+        plan.inst = vec![vec![InstSrc::Free; spec.inst_free]; spec.n_instance];
+
+        // --- tables ---------------------------------------------------------------------------
+        // any-tables live in a block of rows at the top of the assignable area
+        let mut next_table_base = limit;
+        for (li, l) in spec.lookups.iter().enumerate() {
+            let w = l.inputs.len();
+            let mut t = vec![vec![0u64; w]];
+            for _ in 1..l.table_rows {
+                t.push((0..w).map(|_| rng.gen_range(1..1u64 << 40)).collect());
+            }
+            plan.tables.push(t);
+            match &l.kind {
+                TableKind::Table => plan.table_base.push(0),
+                TableKind::AnyFixed | TableKind::AnyAdvice(_) => {
+                    next_table_base = next_table_base.saturating_sub(l.table_rows);
+                    plan.table_base.push(next_table_base);
+                    if let TableKind::AnyAdvice(cols) = &l.kind {
+                        for tr in 0..l.table_rows {
+                            for (j, c) in cols.iter().enumerate() {
+                                let cell = (*c, next_table_base + tr);
+                                assigned.insert(cell);
+                                plan.steps.push(Step::Input {
+                                    cell,
+                                    src: Src::TableCell {
+                                        lookup: li,
+                                        table_row: tr,
+                                        j,
+                                    },
+                                });
+                            }
+                        }
+                    }
+                }
+            }
+        }
+        // rows below `work_limit` are for gates / lookups inputs; any-table blocks sit above
+        let work_limit = next_table_base;
+
+        // --- lookup placements -----------------------------------------------------------------
+        plan.lookup_rows = vec![vec![]; spec.lookups.len()];
+        // --- gate placements -------------------------------------------------------------------
+        plan.gate_rows = vec![vec![]; spec.gates.len()];
+
+        // interleave placements of gates and lookups in random order
+        let mut todo: Vec<(bool, usize)> = vec![];
+        for (gi, g) in spec.gates.iter().enumerate() {
+            for _ in 0..g.placements {
+                todo.push((true, gi));
+            }
+        }
+        for (li, l) in spec.lookups.iter().enumerate() {
+            for _ in 0..l.placements {
+                todo.push((false, li));
+            }
+        }
+        todo.shuffle(&mut rng);
+
+        for (is_gate, idx) in todo {
+            // candidate row: half of the time among the low rows (instance queries live there)
+            let row = if rng.gen_bool(0.5) {
+                rng.gen_range(0..(spec.inst_free + 6).min(work_limit.max(1)))
+            } else {
+                rng.gen_range(0..work_limit.max(1))
+            };
+            if is_gate {
+                let g = &spec.gates[idx];
+                if plan.gate_rows[idx].contains(&row) {
+                    continue;
+                }
+                let mut rots: Vec<i32> = vec![];
+                let mut inputs: BTreeSet<Cell> = BTreeSet::new();
+                let mut ok = true;
+                for c in &g.cons {
+                    rots.push(c.out.1);
+                    rots.extend(c.g.adv_queries().iter().map(|q| q.1));
+                    rots.extend(c.g.fix_queries().iter().map(|q| q.1));
+                    rots.extend(c.g.inst_queries().iter().map(|q| q.1));
+                }
+                if !rows_ok(row, rots.iter().copied(), work_limit) {
+                    continue;
+                }
+                // instance queries may only read free entries or padding zeros
+                for c in &g.cons {
+                    for (_, rot) in c.g.inst_queries() {
+                        let r = at(row, rot);
+                        // only free (assigned) instance entries may be read: the repository's mock
+                        // checker deliberately flags gates that read unassigned (padding)
+                        // instance cells, like it does for unassigned advice cells
+                        if r >= spec.inst_free {
+                            ok = false;
+                        }
+                    }
+                }
+                let outs: Vec<Cell> = g.cons.iter().map(|c| (c.out.0, at(row, c.out.1))).collect();
+                for (i, o) in outs.iter().enumerate() {
+                    if assigned.contains(o) || outs[..i].contains(o) {
+                        ok = false;
+                    }
+                }
+                if !ok {
+                    continue;
+                }
+                for c in &g.cons {
+                    for (col, rot) in c.g.adv_queries() {
+                        inputs.insert((col, at(row, rot)));
+                    }
+                }
+                if outs.iter().any(|o| inputs.contains(o)) {
+                    continue;
+                }
+                for cell in inputs {
+                    if assigned.insert(cell) {
+                        plan.steps.push(Step::Input {
+                            cell,
+                            src: Src::Rand,
+                        });
+                    }
+                }
+                for c in &g.cons {
+                    for (col, rot) in c.g.fix_queries() {
+                        plan.fixed_vals
+                            .entry((col, at(row, rot)))
+                            .or_insert_with(|| rng.gen_range(0..1u64 << 32));
+                    }
+                }
+                for (ci, o) in outs.iter().enumerate() {
+                    assigned.insert(*o);
+                    plan.steps.push(Step::Gate {
+                        gate: idx,
+                        con: ci,
+                        row,
+                    });
+                }
+                plan.gate_rows[idx].push(row);
+            } else {
+                let l = &spec.lookups[idx];
+                if plan.lookup_rows[idx].contains(&row) {
+                    continue;
+                }
+                if !rows_ok(row, l.inputs.iter().map(|q| q.1), work_limit) {
+                    continue;
+                }
+                let cells: Vec<Cell> = l.inputs.iter().map(|(c, r)| (*c, at(row, *r))).collect();
+                let mut distinct = BTreeSet::new();
+                if cells.iter().any(|c| assigned.contains(c) || !distinct.insert(*c)) {
+                    continue;
+                }
+                let table_row = rng.gen_range(0..l.table_rows);
+                for (j, cell) in cells.iter().enumerate() {
+                    assigned.insert(*cell);
+                    plan.steps.push(Step::Input {
+                        cell: *cell,
+                        src: Src::TableVal {
+                            lookup: idx,
+                            table_row,
+                            j,
+                        },
+                    });
+                }
+                plan.lookup_rows[idx].push(row);
+            }
+        }
+
+        // --- copies, constants, instance ties, junk --------------------------------------------
+        let eq_cols: Vec<usize> =
+            spec.advice.iter().enumerate().filter(|(_, a)| a.equality).map(|(i, _)| i).collect();
+        let free_cell = |rng: &mut ChaCha8Rng, assigned: &BTreeSet<Cell>, cols: &[usize]| -> Option<Cell> {
+            if cols.is_empty() || work_limit == 0 {
+                return None;
+            }
+            for _ in 0..20 {
+                let c = (*cols.choose(rng).unwrap(), rng.gen_range(0..work_limit));
+                if !assigned.contains(&c) {
+                    return Some(c);
+                }
+            }
+            None
+        };
+        // adv–adv copies: B := copy of an already assigned cell A, phase(B) ≥ phase(A)
+        for _ in 0..spec.n_copies {
+            let cands: Vec<Cell> =
+                assigned.iter().copied().filter(|c| spec.advice[c.0].equality).collect();
+            if cands.is_empty() {
+                break;
+            }
+            let a = *cands.choose(&mut rng).unwrap();
+            let cols: Vec<usize> = eq_cols
+                .iter()
+                .copied()
+                .filter(|c| spec.advice[*c].phase >= spec.advice[a.0].phase)
+                .collect();
+            if let Some(b) = free_cell(&mut rng, &assigned, &cols) {
+                assigned.insert(b);
+                plan.steps.push(Step::Input {
+                    cell: b,
+                    src: Src::CopyOf(a),
+                });
+            }
+        }
+        // constants
+        if spec.constants {
+            for _ in 0..spec.n_const_cells {
+                if let Some(b) = free_cell(&mut rng, &assigned, &eq_cols) {
+                    assigned.insert(b);
+                    plan.steps.push(Step::Input {
+                        cell: b,
+                        src: Src::Const(rng.gen_range(0..1000)),
+                    });
+                }
+            }
+        }
+        // instance → advice loads (first-phase columns only)
+        let eq_cols_p0: Vec<usize> =
+            eq_cols.iter().copied().filter(|c| spec.advice[*c].phase == 0).collect();
+        for _ in 0..spec.n_inst_load {
+            if spec.n_instance == 0 {
+                break;
+            }
+            if let Some(b) = free_cell(&mut rng, &assigned, &eq_cols_p0) {
+                let ic = rng.gen_range(0..spec.n_instance);
+                let ir = plan.inst[ic].len();
+                plan.inst[ic].push(InstSrc::Load);
+                assigned.insert(b);
+                plan.steps.push(Step::Input {
+                    cell: b,
+                    src: Src::FromInstance(ic, ir),
+                });
+            }
+        }
+        // advice → instance exposures (first-phase cells only)
+        for _ in 0..spec.n_inst_expose {
+            if spec.n_instance == 0 {
+                break;
+            }
+            let cands: Vec<Cell> = assigned
+                .iter()
+                .copied()
+                .filter(|c| spec.advice[c.0].equality && spec.advice[c.0].phase == 0)
+                .collect();
+            if cands.is_empty() {
+                break;
+            }
+            let a = *cands.choose(&mut rng).unwrap();
+            let ic = rng.gen_range(0..spec.n_instance);
+            plan.inst[ic].push(InstSrc::Expose(a));
+        }
+        // junk
+        let all_cols: Vec<usize> = (0..spec.advice.len()).collect();
+        for _ in 0..spec.n_junk {
+            if let Some(b) = free_cell(&mut rng, &assigned, &all_cols) {
+                assigned.insert(b);
+                plan.steps.push(Step::Input {
+                    cell: b,
+                    src: Src::Junk,
+                });
+            }
+        }
+        plan
+    }
+}
+
+// ---------------------------------------------------------------------------------------------
+// Faults
+// ---------------------------------------------------------------------------------------------
+
+#[derive(Clone, Debug, Serialize, Deserialize, PartialEq, Eq, Hash)]
+pub enum FaultKind {
+    Plus1,
+    Zero,
+    SwapBelow,
+    Random(u64),
+}
+
+#[derive(Clone, Debug, Serialize, Deserialize, PartialEq, Eq, Hash)]
+pub struct Fault {
+    pub col: usize,
+    pub row: usize,
+    pub kind: FaultKind,
+}
+
+fn small<F: PrimeField>(v: u64) -> F {
+    F::from(v)
+}
+
+fn rand_field<F: PrimeField + FromUniformBytes<64>>(rng: &mut ChaCha8Rng) -> F {
+    let mut b = [0u8; 64];
+    rng.fill(&mut b[..]);
+    F::from_uniform_bytes(&b)
+}
+
+fn sample_input<F: PrimeField + FromUniformBytes<64>>(rng: &mut ChaCha8Rng) -> F {
+    match rng.gen_range(0..10) {
+        0 => F::ZERO,
+        1 => F::ONE,
+        2 => -F::ONE,
+        3 => F::from(rng.gen_range(0..256u64)),
+        _ => rand_field(rng),
+    }
+}
+
+// ---------------------------------------------------------------------------------------------
+// Witness: walk the plan
+// ---------------------------------------------------------------------------------------------
+
+pub struct Witness<F: PrimeField> {
+    pub advice: BTreeMap<Cell, Value<F>>,
+    /// instance columns (free + tied entries), as concrete values
+    pub instance: Vec<Vec<F>>,
+}
+
+fn eval_g<F: PrimeField>(
+    g: &GExpr,
+    row: usize,
+    adv: &BTreeMap<Cell, Value<F>>,
+    fix: &BTreeMap<(usize, usize), u64>,
+    inst: &[Vec<F>],
+    chal: &[Value<F>],
+) -> Value<F> {
+    match g {
+        GExpr::C(c) => Value::known(small::<F>(*c)),
+        GExpr::Adv(c, r) => adv.get(&(*c, at(row, *r))).copied().unwrap_or(Value::known(F::ZERO)),
+        GExpr::Fix(c, r) => {
+            Value::known(small::<F>(fix.get(&(*c, at(row, *r))).copied().unwrap_or(0)))
+        }
+        GExpr::Inst(c, r) => {
+            Value::known(inst[*c].get(at(row, *r)).copied().unwrap_or(F::ZERO))
+        }
+        GExpr::Chal(i) => chal[*i],
+        GExpr::Neg(a) => -eval_g(a, row, adv, fix, inst, chal),
+        GExpr::Add(a, b) => eval_g(a, row, adv, fix, inst, chal) + eval_g(b, row, adv, fix, inst, chal),
+        GExpr::Mul(a, b) => eval_g(a, row, adv, fix, inst, chal) * eval_g(b, row, adv, fix, inst, chal),
+        GExpr::Scale(a, s) => eval_g(a, row, adv, fix, inst, chal) * Value::known(small::<F>(*s)),
+    }
+}
+
+fn known<F: Copy>(v: &Value<F>) -> Option<F> {
+    let mut o = None;
+    v.map(|x| o = Some(x));
+    o
+}
+
+/// Computes the witness for `spec` from `witness_seed`; `chal[i]` may be unknown (then cells
+/// that depend on it are unknown). Instance values never depend on challenges.
+pub fn compute_witness<F: PrimeField + FromUniformBytes<64>>(
+    spec: &GenSpec,
+    plan: &Plan,
+    witness_seed: u64,
+    chal: &[Value<F>],
+) -> Witness<F> {
+    let mut rng = rng_for(witness_seed, "witness");
+    // free instance entries first (gates may read them)
+    let mut instance: Vec<Vec<F>> = plan
+        .inst
+        .iter()
+        .map(|col| {
+            col.iter()
+                .map(|s| match s {
+                    InstSrc::Free | InstSrc::Load => sample_input::<F>(&mut rng),
+                    InstSrc::Expose(_) => F::ZERO, // filled below
+                })
+                .collect()
+        })
+        .collect();
+    let mut adv: BTreeMap<Cell, Value<F>> = BTreeMap::new();
+    for step in &plan.steps {
+        match step {
+            Step::Input { cell, src } => {
+                let v = match src {
+                    Src::Rand | Src::Junk => Value::known(sample_input::<F>(&mut rng)),
+                    Src::Const(c) => Value::known(small::<F>(*c)),
+                    Src::FromInstance(c, r) => Value::known(instance[*c][*r]),
+                    Src::CopyOf(a) => adv.get(a).copied().unwrap_or(Value::known(F::ZERO)),
+                    Src::TableVal { lookup, table_row, j } | Src::TableCell { lookup, table_row, j } => {
+                        Value::known(small::<F>(plan.tables[*lookup][*table_row][*j]))
+                    }
+                };
+                adv.insert(*cell, v);
+            }
+            Step::Gate { gate, con, row } => {
+                let c = &spec.gates[*gate].cons[*con];
+                let v = eval_g(&c.g, *row, &adv, &plan.fixed_vals, &instance, chal);
+                adv.insert((c.out.0, at(*row, c.out.1)), v);
+            }
+        }
+    }
+    for (ic, col) in plan.inst.iter().enumerate() {
+        for (ir, s) in col.iter().enumerate() {
+            if let InstSrc::Expose(a) = s {
+                instance[ic][ir] = adv.get(a).and_then(known).unwrap_or(F::ZERO);
+            }
+        }
+    }
+    Witness {
+        advice: adv,
+        instance,
+    }
+}
+
+/// Instance vectors of an (unfaulted) witness.
+pub fn instance_of<F: PrimeField + FromUniformBytes<64>>(spec: &GenSpec, witness_seed: u64) -> Vec<Vec<F>> {
+    let plan = Plan::derive(spec);
+    let chal = vec![Value::unknown(); spec.challenges.len()];
+    compute_witness::<F>(spec, &plan, witness_seed, &chal).instance
+}
+
+// ---------------------------------------------------------------------------------------------
+// Circuit
+// ---------------------------------------------------------------------------------------------
+
+#[derive(Clone, Debug)]
+pub struct GenConfig {
+    pub spec: GenSpec,
+    pub advice: Vec<Column<Advice>>,
+    pub fixed: Vec<Column<Fixed>>,
+    pub instance: Vec<Column<Instance>>,
+    pub challenges: Vec<Challenge>,
+    pub gate_sel: Vec<Selector>,
+    pub lookup_sel: Vec<Selector>,
+    pub lookup_tables: Vec<Vec<TableColumn>>,
+    /// for any-tables: enable column + (for AnyFixed) the fixed table columns
+    pub any_enable: Vec<Option<Column<Fixed>>>,
+    pub any_fixed_cols: Vec<Vec<Column<Fixed>>>,
+    pub constant_col: Option<Column<Fixed>>,
+}
+
+#[derive(Clone, Debug)]
+pub struct GenCircuit {
+    pub spec: GenSpec,
+    /// `None` = unknown witness (key generation)
+    pub witness_seed: Option<u64>,
+    pub faults: Vec<Fault>,
+}
+
+impl GenCircuit {
+    pub fn new(spec: GenSpec, witness_seed: u64) -> Self {
+        GenCircuit {
+            spec,
+            witness_seed: Some(witness_seed),
+            faults: vec![],
+        }
+    }
+}
+
+fn to_expr<F: PrimeField>(
+    g: &GExpr,
+    meta: &mut midnight_proofs::plonk::VirtualCells<'_, F>,
+    cfg: &GenConfig,
+) -> Expression<F> {
+    match g {
+        GExpr::C(c) => Expression::Constant(small::<F>(*c)),
+        GExpr::Adv(c, r) => meta.query_advice(cfg.advice[*c], Rotation(*r)),
+        GExpr::Fix(c, r) => meta.query_fixed(cfg.fixed[*c], Rotation(*r)),
+        GExpr::Inst(c, r) => meta.query_instance(cfg.instance[*c], Rotation(*r)),
+        GExpr::Chal(i) => meta.query_challenge(cfg.challenges[*i]),
+        GExpr::Neg(a) => -to_expr(a, meta, cfg),
+        GExpr::Add(a, b) => to_expr(a, meta, cfg) + to_expr(b, meta, cfg),
+        GExpr::Mul(a, b) => to_expr(a, meta, cfg) * to_expr(b, meta, cfg),
+        GExpr::Scale(a, s) => to_expr(a, meta, cfg) * small::<F>(*s),
+    }
+}
+
+impl<F: PrimeField + FromUniformBytes<64>> Circuit<F> for GenCircuit {
+    type Config = GenConfig;
+    type FloorPlanner = SimpleFloorPlanner;
+    type Params = GenSpec;
+
+    fn without_witnesses(&self) -> Self {
+        GenCircuit {
+            spec: self.spec.clone(),
+            witness_seed: None,
+            faults: vec![],
+        }
+    }
+
+    fn params(&self) -> Self::Params {
+        self.spec.clone()
+    }
+
+    fn configure(_: &mut ConstraintSystem<F>) -> Self::Config {
+        unreachable!("GenCircuit is configured through configure_with_params")
+    }
+
+    fn configure_with_params(meta: &mut ConstraintSystem<F>, spec: GenSpec) -> GenConfig {
+        let advice: Vec<Column<Advice>> = spec
+            .advice
+            .iter()
+            .map(|a| {
+                let c = match (a.phase, a.unblinded) {
+                    (0, false) => meta.advice_column_in(FirstPhase),
+                    (1, false) => meta.advice_column_in(SecondPhase),
+                    (_, false) => meta.advice_column_in(ThirdPhase),
+                    (0, true) => meta.unblinded_advice_column_in(FirstPhase),
+                    (1, true) => meta.unblinded_advice_column_in(SecondPhase),
+                    (_, true) => meta.unblinded_advice_column_in(ThirdPhase),
+                };
+                if a.equality {
+                    meta.enable_equality(c);
+                }
+                c
+            })
+            .collect();
+        let fixed: Vec<Column<Fixed>> = spec
+            .fixed_eq
+            .iter()
+            .map(|eq| {
+                let c = meta.fixed_column();
+                if *eq {
+                    meta.enable_equality(c);
+                }
+                c
+            })
+            .collect();
+        let instance: Vec<Column<Instance>> = (0..spec.n_instance)
+            .map(|_| {
+                let c = meta.instance_column();
+                meta.enable_equality(c);
+                c
+            })
+            .collect();
+        let challenges: Vec<Challenge> = spec
+            .challenges
+            .iter()
+            .map(|p| match p {
+                0 => meta.challenge_usable_after(FirstPhase),
+                1 => meta.challenge_usable_after(SecondPhase),
+                _ => meta.challenge_usable_after(ThirdPhase),
+            })
+            .collect();
+        let constant_col = if spec.constants {
+            let c = meta.fixed_column();
+            meta.enable_constant(c);
+            Some(c)
+        } else {
+            None
+        };
+        let mut cfg = GenConfig {
+            spec: spec.clone(),
+            advice,
+            fixed,
+            instance,
+            challenges,
+            gate_sel: vec![],
+            lookup_sel: vec![],
+            lookup_tables: vec![],
+            any_enable: vec![],
+            any_fixed_cols: vec![],
+            constant_col,
+        };
+        for g in &spec.gates {
+            // additive selectors must be complex (the library asserts it when converting selectors)
+            let sel = if g.additive { meta.complex_selector() } else { meta.selector() };
+            cfg.gate_sel.push(sel);
+            let cfg_ref = cfg.clone();
+            let g2 = g.clone();
+            meta.create_gate("gen", move |m| {
+                let cons: Vec<Expression<F>> = g2
+                    .cons
+                    .iter()
+                    .map(|c| {
+                        let out = m.query_advice(cfg_ref.advice[c.out.0], Rotation(c.out.1));
+                        out - to_expr(&c.g, m, &cfg_ref)
+                    })
+                    .collect();
+                if g2.additive {
+                    Constraints::with_additive_selector(sel, cons)
+                } else {
+                    Constraints::with_selector(sel, cons)
+                }
+            });
+        }
+        for l in &spec.lookups {
+            let sel = meta.complex_selector();
+            cfg.lookup_sel.push(sel);
+            match &l.kind {
+                TableKind::Table => {
+                    let cols: Vec<TableColumn> =
+                        (0..l.inputs.len()).map(|_| meta.lookup_table_column()).collect();
+                    let advice = cfg.advice.clone();
+                    let inputs = l.inputs.clone();
+                    let cols2 = cols.clone();
+                    meta.lookup("gen-lookup", move |m| {
+                        let q = m.query_selector(sel);
+                        inputs
+                            .iter()
+                            .zip(cols2.iter())
+                            .map(|((c, r), t)| (q.clone() * m.query_advice(advice[*c], Rotation(*r)), *t))
+                            .collect()
+                    });
+                    cfg.lookup_tables.push(cols);
+                    cfg.any_enable.push(None);
+                    cfg.any_fixed_cols.push(vec![]);
+                }
+                TableKind::AnyFixed => {
+                    let en = meta.fixed_column();
+                    let tcols: Vec<Column<Fixed>> =
+                        (0..l.inputs.len()).map(|_| meta.fixed_column()).collect();
+                    let advice = cfg.advice.clone();
+                    let inputs = l.inputs.clone();
+                    let tcols2 = tcols.clone();
+                    meta.lookup_any("gen-lookup-any-fixed", move |m| {
+                        let q = m.query_selector(sel);
+                        let e = m.query_fixed(en, Rotation::cur());
+                        inputs
+                            .iter()
+                            .zip(tcols2.iter())
+                            .map(|((c, r), t)| {
+                                (
+                                    q.clone() * m.query_advice(advice[*c], Rotation(*r)),
+                                    e.clone() * m.query_fixed(*t, Rotation::cur()),
+                                )
+                            })
+                            .collect()
+                    });
+                    cfg.lookup_tables.push(vec![]);
+                    cfg.any_enable.push(Some(en));
+                    cfg.any_fixed_cols.push(tcols);
+                }
+                TableKind::AnyAdvice(acols) => {
+                    let en = meta.fixed_column();
+                    let advice = cfg.advice.clone();
+                    let inputs = l.inputs.clone();
+                    let acols2 = acols.clone();
+                    meta.lookup_any("gen-lookup-any-advice", move |m| {
+                        let q = m.query_selector(sel);
+                        let e = m.query_fixed(en, Rotation::cur());
+                        inputs
+                            .iter()
+                            .zip(acols2.iter())
+                            .map(|((c, r), t)| {
+                                (
+                                    q.clone() * m.query_advice(advice[*c], Rotation(*r)),
+                                    e.clone() * m.query_advice(advice[*t], Rotation::cur()),
+                                )
+                            })
+                            .collect()
+                    });
+                    cfg.lookup_tables.push(vec![]);
+                    cfg.any_enable.push(Some(en));
+                    cfg.any_fixed_cols.push(vec![]);
+                }
+            }
+        }
+        cfg
+    }
+
+    fn synthesize(&self, cfg: GenConfig, mut layouter: impl Layouter<F>) -> Result<(), Error> {
+        let spec = &cfg.spec;
+        let plan = Plan::derive(spec);
+        let chal: Vec<Value<F>> = cfg.challenges.iter().map(|c| layouter.get_challenge(*c)).collect();
+        let witness: Option<Witness<F>> =
+            self.witness_seed.map(|s| compute_witness::<F>(spec, &plan, s, &chal));
+
+        // fixed tables of `lookup`
+        for (li, l) in spec.lookups.iter().enumerate() {
+            if let TableKind::Table = l.kind {
+                let cols = cfg.lookup_tables[li].clone();
+                let table = plan.tables[li].clone();
+                layouter.assign_table(
+                    || "gen-table",
+                    |mut t| {
+                        for (r, row) in table.iter().enumerate() {
+                            for (j, v) in row.iter().enumerate() {
+                                t.assign_cell(|| "t", cols[j], r, || Value::known(small::<F>(*v)))?;
+                            }
+                        }
+                        Ok(())
+                    },
+                )?;
+            }
+        }
+
+        // apply faults to the advice values
+        let mut values: BTreeMap<Cell, Value<F>> = match &witness {
+            Some(w) => w.advice.clone(),
+            None => BTreeMap::new(),
+        };
+        if witness.is_some() {
+            for f in &self.faults {
+                let cell = (f.col, f.row);
+                let old = values.get(&cell).copied();
+                let Some(old) = old else { continue };
+                match &f.kind {
+                    FaultKind::Plus1 => {
+                        values.insert(cell, old + Value::known(F::ONE));
+                    }
+                    FaultKind::Zero => {
+                        values.insert(cell, Value::known(F::ZERO));
+                    }
+                    FaultKind::Random(s) => {
+                        let mut r = rng_for(*s, "fault");
+                        values.insert(cell, Value::known(rand_field::<F>(&mut r)));
+                    }
+                    FaultKind::SwapBelow => {
+                        let below = values.range((f.col, f.row + 1)..(f.col + 1, 0)).next().map(|(k, v)| (*k, *v));
+                        match below {
+                            Some((bc, bv)) => {
+                                values.insert(cell, bv);
+                                values.insert(bc, old);
+                            }
+                            None => {
+                                values.insert(cell, old + Value::known(F::ONE));
+                            }
+                        }
+                    }
+                }
+            }
+        }
+
+        let known_witness = witness.is_some();
+        let no_faults = self.faults.is_empty();
+        layouter.assign_region(
+            || "gen",
+            |mut region| {
+                let mut cells: BTreeMap<Cell, midnight_proofs::circuit::Cell> = BTreeMap::new();
+                let mut inst_ties: Vec<(midnight_proofs::circuit::Cell, usize, usize)> = vec![];
+                // plain fixed values
+                for ((c, r), v) in &plan.fixed_vals {
+                    region.assign_fixed(|| "f", cfg.fixed[*c], *r, || Value::known(small::<F>(*v)))?;
+                }
+                // any-tables
+                for (li, l) in spec.lookups.iter().enumerate() {
+                    match &l.kind {
+                        TableKind::Table => {}
+                        TableKind::AnyFixed => {
+                            let base = plan.table_base[li];
+                            for (tr, row) in plan.tables[li].iter().enumerate() {
+                                region.assign_fixed(
+                                    || "en",
+                                    cfg.any_enable[li].unwrap(),
+                                    base + tr,
+                                    || Value::known(F::ONE),
+                                )?;
+                                for (j, v) in row.iter().enumerate() {
+                                    region.assign_fixed(
+                                        || "tf",
+                                        cfg.any_fixed_cols[li][j],
+                                        base + tr,
+                                        || Value::known(small::<F>(*v)),
+                                    )?;
+                                }
+                            }
+                        }
+                        TableKind::AnyAdvice(_) => {
+                            let base = plan.table_base[li];
+                            for tr in 0..plan.tables[li].len() {
+                                region.assign_fixed(
+                                    || "en",
+                                    cfg.any_enable[li].unwrap(),
+                                    base + tr,
+                                    || Value::known(F::ONE),
+                                )?;
+                            }
+                        }
+                    }
+                }
+                // selectors
+                for (gi, rows) in plan.gate_rows.iter().enumerate() {
+                    for r in rows {
+                        cfg.gate_sel[gi].enable(&mut region, *r)?;
+                    }
+                }
+                for (li, rows) in plan.lookup_rows.iter().enumerate() {
+                    for r in rows {
+                        cfg.lookup_sel[li].enable(&mut region, *r)?;
+                    }
+                }
+                // advice cells in plan order
+                let val = |cell: &Cell| -> Value<F> {
+                    if known_witness {
+                        values.get(cell).copied().unwrap_or(Value::known(F::ZERO))
+                    } else {
+                        Value::unknown()
+                    }
+                };
+                for step in &plan.steps {
+                    match step {
+                        Step::Input { cell, src } => {
+                            let col = cfg.advice[cell.0];
+                            let ac = match src {
+                                Src::Const(c) => {
+                                    // the table value may be faulted; the constant tie is structural
+                                    let ac = region.assign_advice(|| "c", col, cell.1, || val(cell))?;
+                                    region.constrain_constant(ac.cell(), small::<F>(*c))?;
+                                    ac.cell()
+                                }
+                                Src::FromInstance(ic, ir) => {
+                                    if no_faults {
+                                        region
+                                            .assign_advice_from_instance(
+                                                || "i",
+                                                cfg.instance[*ic],
+                                                *ir,
+                                                col,
+                                                cell.1,
+                                            )?
+                                            .cell()
+                                    } else {
+                                        // same tie, but the assigned value may be faulted
+                                        let ac = region.assign_advice(|| "i", col, cell.1, || val(cell))?;
+                                        inst_ties.push((ac.cell(), *ic, *ir));
+                                        ac.cell()
+                                    }
+                                }
+                                Src::CopyOf(a) => {
+                                    let ac = region.assign_advice(|| "cp", col, cell.1, || val(cell))?;
+                                    let src_cell = cells.get(a).copied();
+                                    if let Some(sc) = src_cell {
+                                        region.constrain_equal(sc, ac.cell())?;
+                                    }
+                                    ac.cell()
+                                }
+                                _ => region.assign_advice(|| "a", col, cell.1, || val(cell))?.cell(),
+                            };
+                            cells.insert(*cell, ac);
+                        }
+                        Step::Gate { gate, con, row } => {
+                            let c = &spec.gates[*gate].cons[*con];
+                            let cell = (c.out.0, at(*row, c.out.1));
+                            let ac = region.assign_advice(|| "o", cfg.advice[cell.0], cell.1, || val(&cell))?;
+                            cells.insert(cell, ac.cell());
+                        }
+                    }
+                }
+                Ok((cells, inst_ties))
+            },
+        )
+        .and_then(|(cells, inst_ties)| {
+            for (c, ic, ir) in inst_ties {
+                layouter.constrain_instance(c, cfg.instance[ic], ir)?;
+            }
+            for (ic, col) in plan.inst.iter().enumerate() {
+                for (ir, s) in col.iter().enumerate() {
+                    if let InstSrc::Expose(a) = s {
+                        if let Some(c) = cells.get(a) {
+                            layouter.constrain_instance(*c, cfg.instance[ic], ir)?;
+                        }
+                    }
+                }
+            }
+            Ok(())
+        })
+    }
+}
+
+// ---------------------------------------------------------------------------------------------
+// Random spec generation
+// ---------------------------------------------------------------------------------------------
+
+/// Knobs for the spec sampler (stratified by the caller).
+#[derive(Clone, Debug)]
+pub struct GenKnobs {
+    pub n_phases: u8,
+    pub n_gates: usize,
+    pub n_trash: usize,
+    pub n_lookups: usize,
+    pub max_degree: usize,
+    pub max_rot: i32,
+    pub unblinded: bool,
+    pub constants: bool,
+    pub n_instance: usize,
+    pub inst_queries: bool,
+    pub copies: bool,
+    pub k_extra: u32,
+    pub multi_cons: bool,
+}
+
+impl GenKnobs {
+    pub fn sample(rng: &mut ChaCha8Rng) -> GenKnobs {
+        GenKnobs {
+            n_phases: *[1u8, 1, 1, 2, 2, 3].choose(rng).unwrap(),
+            n_gates: rng.gen_range(0..=5),
+            n_trash: *[0usize, 0, 1, 2].choose(rng).unwrap(),
+            n_lookups: *[0usize, 0, 1, 2, 3].choose(rng).unwrap(),
+            max_degree: rng.gen_range(2..=6),
+            max_rot: rng.gen_range(0..=3),
+            unblinded: rng.gen_bool(0.3),
+            constants: rng.gen_bool(0.5),
+            n_instance: rng.gen_range(1..=3),
+            inst_queries: rng.gen_bool(0.4),
+            copies: rng.gen_bool(0.8),
+            k_extra: *[0u32, 0, 1, 2].choose(rng).unwrap(),
+            multi_cons: rng.gen_bool(0.3),
+        }
+    }
+}
+
+struct ExprCtx<'a> {
+    adv_cols: &'a [usize],
+    n_fixed: usize,
+    inst_cols: usize,
+    chals: &'a [usize],
+    max_rot: i32,
+    forbidden: &'a BTreeSet<(usize, i32)>,
+}
+
+fn gen_leaf(rng: &mut ChaCha8Rng, cx: &ExprCtx) -> GExpr {
+    for _ in 0..8 {
+        let kind = rng.gen_range(0..10);
+        let rot = if cx.max_rot == 0 { 0 } else { rng.gen_range(-cx.max_rot..=cx.max_rot) };
+        match kind {
+            0..=5 if !cx.adv_cols.is_empty() => {
+                let c = *cx.adv_cols.choose(rng).unwrap();
+                if !cx.forbidden.contains(&(c, rot)) {
+                    return GExpr::Adv(c, rot);
+                }
+            }
+            6 | 7 if cx.n_fixed > 0 => return GExpr::Fix(rng.gen_range(0..cx.n_fixed), rot),
+            8 if cx.inst_cols > 0 => return GExpr::Inst(rng.gen_range(0..cx.inst_cols), rot),
+            9 if !cx.chals.is_empty() => return GExpr::Chal(*cx.chals.choose(rng).unwrap()),
+            _ => {}
+        }
+    }
+    GExpr::C(rng.gen_range(1..100))
+}
+
+fn gen_expr(rng: &mut ChaCha8Rng, cx: &ExprCtx, degree: usize, depth: usize) -> GExpr {
+    if degree == 0 {
+        return if !cx.chals.is_empty() && rng.gen_bool(0.3) {
+            GExpr::Chal(*cx.chals.choose(rng).unwrap())
+        } else {
+            GExpr::C(rng.gen_range(0..1000))
+        };
+    }
+    if depth == 0 || (degree == 1 && rng.gen_bool(0.6)) {
+        return gen_leaf(rng, cx);
+    }
+    match rng.gen_range(0..10) {
+        0..=3 if degree >= 2 => {
+            let a = rng.gen_range(1..degree);
+            GExpr::Mul(
+                Box::new(gen_expr(rng, cx, a, depth - 1)),
+                Box::new(gen_expr(rng, cx, degree - a, depth - 1)),
+            )
+        }
+        0..=6 => {
+            let d2 = rng.gen_range(0..=degree);
+            GExpr::Add(
+                Box::new(gen_expr(rng, cx, degree, depth - 1)),
+                Box::new(gen_expr(rng, cx, d2, depth - 1)),
+            )
+        }
+        7 => GExpr::Neg(Box::new(gen_expr(rng, cx, degree, depth - 1))),
+        8 => GExpr::Scale(Box::new(gen_expr(rng, cx, degree, depth - 1)), rng.gen_range(2..50)),
+        _ => gen_leaf(rng, cx),
+    }
+}
+
+/// Samples a spec. Returns `None` when the sampled structure cannot be laid out for k ≤ `k_max`.
+pub fn gen_spec<F: PrimeField + FromUniformBytes<64>>(
+    rng: &mut ChaCha8Rng,
+    knobs: &GenKnobs,
+    k_max: u32,
+) -> Option<GenSpec> {
+    let mut spec = GenSpec {
+        plan_seed: rng.gen(),
+        ..GenSpec::default()
+    };
+    // columns: at least 2 per phase
+    for p in 0..knobs.n_phases {
+        let n = rng.gen_range(2..=4);
+        for i in 0..n {
+            spec.advice.push(AdvSpec {
+                phase: p,
+                unblinded: knobs.unblinded && rng.gen_bool(0.3),
+                equality: knobs.copies && (i == 0 || rng.gen_bool(0.6)),
+            });
+        }
+    }
+    let n_fixed = rng.gen_range(0..=2);
+    spec.fixed_eq = (0..n_fixed).map(|_| rng.gen_bool(0.3)).collect();
+    spec.n_instance = knobs.n_instance;
+    // challenges: usable after phase p, for p < n_phases - 1 (so that a later phase can use them);
+    // sometimes also one after the last phase (only usable in gates)
+    if knobs.n_phases > 1 {
+        let nch = rng.gen_range(1..=3);
+        for _ in 0..nch {
+            spec.challenges.push(rng.gen_range(0..knobs.n_phases - 1));
+        }
+    }
+    spec.constants = knobs.constants;
+
+    let cols_by_phase = |p: u8, spec: &GenSpec| -> Vec<usize> {
+        spec.advice.iter().enumerate().filter(|(_, a)| a.phase <= p).map(|(i, _)| i).collect()
+    };
+    let mut mk_gate = |rng: &mut ChaCha8Rng, spec: &GenSpec, additive: bool| -> GateSpec {
+        let ncons = if knobs.multi_cons { rng.gen_range(1..=3) } else { 1 };
+        let mut outs: BTreeSet<(usize, i32)> = BTreeSet::new();
+        let mut cons_out = vec![];
+        for _ in 0..ncons {
+            for _ in 0..10 {
+                let oc = rng.gen_range(0..spec.advice.len());
+                let or = if knobs.max_rot == 0 { 0 } else { rng.gen_range(-knobs.max_rot..=knobs.max_rot) };
+                if outs.insert((oc, or)) {
+                    cons_out.push((oc, or));
+                    break;
+                }
+            }
+        }
+        let cons = cons_out
+            .iter()
+            .map(|(oc, or)| {
+                let p = spec.advice[*oc].phase;
+                let adv_cols = cols_by_phase(p, spec);
+                let chals: Vec<usize> =
+                    spec.challenges.iter().enumerate().filter(|(_, cp)| **cp < p).map(|(i, _)| i).collect();
+                let cx = ExprCtx {
+                    adv_cols: &adv_cols,
+                    n_fixed: spec.fixed_eq.len(),
+                    inst_cols: if knobs.inst_queries { spec.n_instance } else { 0 },
+                    chals: &chals,
+                    max_rot: knobs.max_rot,
+                    forbidden: &outs,
+                };
+                let budget = if additive { knobs.max_degree.min(5) } else { knobs.max_degree - 1 };
+                let deg = rng.gen_range(1..=budget.max(1));
+                ConsSpec {
+                    out: (*oc, *or),
+                    g: gen_expr(rng, &cx, deg, 4),
+                }
+            })
+            .collect();
+        GateSpec {
+            cons,
+            additive,
+            placements: rng.gen_range(1..=6),
+        }
+    };
+    for _ in 0..knobs.n_gates {
+        let g = mk_gate(rng, &spec, false);
+        spec.gates.push(g);
+    }
+    for _ in 0..knobs.n_trash {
+        let g = mk_gate(rng, &spec, true);
+        spec.gates.push(g);
+    }
+    for _ in 0..knobs.n_lookups {
+        let max_pairs = spec.advice.len() * (2 * knobs.max_rot as usize + 1);
+        let w = rng.gen_range(1..=3usize).min(max_pairs);
+        let p0: Vec<usize> = cols_by_phase(0, &spec);
+        let kind = match rng.gen_range(0..3) {
+            0 => TableKind::Table,
+            1 => TableKind::AnyFixed,
+            _ => {
+                if p0.len() >= w {
+                    let mut c = p0.clone();
+                    c.shuffle(rng);
+                    TableKind::AnyAdvice(c[..w].to_vec())
+                } else {
+                    TableKind::AnyFixed
+                }
+            }
+        };
+        let mut inputs = vec![];
+        let mut seen = BTreeSet::new();
+        while inputs.len() < w {
+            let c = rng.gen_range(0..spec.advice.len());
+            let r = if knobs.max_rot == 0 { 0 } else { rng.gen_range(-knobs.max_rot..=knobs.max_rot) };
+            if seen.insert((c, r)) {
+                inputs.push((c, r));
+            }
+        }
+        spec.lookups.push(LookupSpec {
+            kind,
+            inputs,
+            table_rows: rng.gen_range(2..=6),
+            placements: rng.gen_range(1..=5),
+        });
+    }
+    if knobs.copies {
+        spec.n_copies = rng.gen_range(1..=6);
+        spec.n_inst_expose = rng.gen_range(0..=3);
+        spec.n_inst_load = rng.gen_range(0..=3);
+        spec.n_const_cells = if knobs.constants { rng.gen_range(1..=3) } else { 0 };
+    }
+    spec.n_junk = rng.gen_range(0..=4);
+    spec.inst_free = if knobs.inst_queries { rng.gen_range(4..=10) } else { rng.gen_range(0..=4) };
+
+    // trial configure: blinding factors / minimum rows
+    let mut cs = ConstraintSystem::<F>::default();
+    let _ = <GenCircuit as Circuit<F>>::configure_with_params(&mut cs, spec.clone());
+    let min_rows = cs.minimum_rows();
+    let table_rows: usize = spec
+        .lookups
+        .iter()
+        .filter(|l| !matches!(l.kind, TableKind::Table))
+        .map(|l| l.table_rows)
+        .sum();
+    let needed = min_rows + table_rows + 8 + spec.inst_free + spec.n_inst_expose + spec.n_inst_load;
+    let mut k = 4;
+    while (1usize << k) < needed {
+        k += 1;
+    }
+    k += knobs.k_extra;
+    if k > k_max {
+        return None;
+    }
+    spec.k = k;
+    spec.row_limit = (1usize << k) - (cs.blinding_factors() + 1);
+    Some(spec)
+}
